@@ -37,6 +37,7 @@ func runC04(e *Env) {
 	c04SucceedTable(e, s)
 	c04ErrorPairing(e, s)
 	c04Handlers(e, s)
+	c05SignalFanout(e, s) // `canceled iff stopped`: every accepted stop sets the flag the outcome is read from
 	c04PrecondFirst(e, s)
 	c04HandlerStatus(e, s)
 }
